@@ -77,6 +77,8 @@ def programs(tier: str):
     for how in ("aclose", "break"):
         for place in ("in-scope", "outside"):
             yield {"stream": True, "close": how, "place": place}
+    for ending in ("return", "raise"):
+        yield {"enter_cancelled": True, "ending": ending}
     for after in ("scope-returned", "scope-raised", "scope-cancelled", "scope-cancelled-in-exit"):
         yield {"detached": True, "pauses": 1, "after": after}
     kmax = BOUNDS[tier]["max_spawns"]
@@ -225,7 +227,60 @@ def _stream(program, ch: Chooser) -> Result:
         w.close()
 
 
+def _enter_cancelled(program, ch: Chooser) -> Result:
+    """outer scope; a nested scope's suspended disposable enter is cancelled and the cancellation
+    handled; tasks spawned afterwards belong to the outer scope: awaited on return, cancelled on
+    failure - never left running"""
+    from hv.ctxkit import Disp
+
+    w = World(ch)
+    viols: list[dict] = []
+    try:
+        spawned: list = []
+        st: dict = {}
+
+        class Slow(Disp):
+            async def __aenter__(self):
+                await w.loop.create_future()
+
+        async def child():
+            await w.pause("late-child")
+
+        async def main():
+            try:
+                async with ctx.scope("outer"):
+                    try:
+                        w.loop.call_soon(asyncio.current_task().cancel)
+                        async with ctx.scope("inner", disposables=[Slow(None)]):
+                            st["inner_body"] = True
+                    except asyncio.CancelledError:
+                        asyncio.current_task().uncancel()
+                    spawned.append(ctx.spawn(child))
+                    if program["ending"] == "raise":
+                        raise ValueError("outer body fails")
+            except ValueError:
+                pass
+            st["done_at_return"] = [t.done() for t in spawned]
+
+        t = w.task(main(), name="driver")
+        try:
+            w.run()
+        except Livelock:
+            pass
+        if not t.done() or t.exception() is not None:
+            viols.append(viol("termination", "enter-cancelled/driver", "driver finishes", repr(t.exception() if t.done() else "pending")[:120]))
+        elif not all(st.get("done_at_return", [False])):
+            viols.append(
+                viol("all-done-at-exit", f"task-outlives-scope/after-cancelled-nested-enter/body-{program['ending']}", "task spawned into the outer scope is finished when it is left", st.get("done_at_return"))
+            )
+        return Result(f"enter-cancelled/{program['ending']}", True, viols, {"trace": w.trace, "done": st.get("done_at_return")})
+    finally:
+        w.close()
+
+
 def execute(program, ch: Chooser) -> Result:  # noqa: C901, PLR0912
+    if program.get("enter_cancelled"):
+        return _enter_cancelled(program, ch)
     if program.get("stream"):
         return _stream(program, ch)
     if program.get("detached"):
